@@ -13,8 +13,9 @@ package main
 //	required-field error iff the oracle finds an unset required field; with AllowPartial never;
 //	the UnmarshalInitialized flag is never set for a partial message; a message accepted by
 //	Unmarshal passes CheckInitialized and Marshal.
-// Findings recognised: FA1 (lazy), FA2 (non-first oneof member), FA3 (Merge into a partial message),
-// FA5 (second value occurrence in a map entry).
+// Findings recognised: FA1 (lazy), FA3 (Merge into a partial message), FA4 (needsInitCheck memo on type
+// cycles), FA5 (second value occurrence in a map entry).  FA2 (non-first oneof member) is repaired
+// in the code: its witnesses stay in the corpus as regression inputs.
 
 import (
 	"fmt"
@@ -324,6 +325,7 @@ func reqFieldAlternatives(c *Ctx, fd protoreflect.FieldDescriptor, depth, cap in
 			out = append(out, mk(s))
 		}
 		out = append(out, mk(subs[len(subs)-1], subs[0]))
+		out = append(out, mk(subs[0], subs[len(subs)-1])) // a partial element followed by a complete one
 		out = append(out, mk(subs[len(subs)-1], subs[len(subs)-1]))
 	default:
 		for _, s := range subs {
@@ -581,9 +583,6 @@ func reqDecodeChecks(c *Ctx, t *reqTarget, fl w2aFlavour, b []byte, canonical bo
 			case !nolazy && facts.allUnderLazy:
 				c.Known("FA1", "C10", "a partial message inside an undecoded [lazy=true] field is accepted by Unmarshal, CheckInitialized and Marshal")
 				c.Stat("known_FA1")
-			case !fl.slow && facts.allUnderLateOO:
-				c.Known("FA2", "C10", "the table-driven decoder ignores the initialized result of a message in a non-first oneof member")
-				c.Stat("known_FA2")
 			case !fl.slow && facts.allUnderCycle:
 				reqKnownFA4(c)
 			case !fl.slow && !canonical && reqDupMapValue(fl.md, b, 8):
@@ -675,6 +674,16 @@ func reqOneShape(c *Ctx, t *reqTarget, fl w2aFlavour, set reqSetter) {
 	for _, f2 := range t.fls {
 		reqDecodeChecks(c, t, f2, b, true)
 	}
+	// the same with one known field sent with a wire type its kind rejects (it becomes an unknown
+	// field: a required field is then missing although its number occurs in the input)
+	if c.Intn(4) == 0 {
+		if bw := reqFlipType(c, fl.md, b); bw != nil {
+			c.Stat("wire_wrong_type")
+			for _, f2 := range t.fls {
+				reqDecodeChecks(c, t, f2, bw, false)
+			}
+		}
+	}
 	// protojson / prototext
 	if c.Intn(3) == 0 {
 		_, errJ := protojson.Marshal(m.Interface())
@@ -718,6 +727,60 @@ func reqOneShape(c *Ctx, t *reqTarget, fl w2aFlavour, set reqSetter) {
 			}
 		}
 	}
+}
+
+// reqFlipType re-encodes one top-level known field of b (or of a sub-message one level down) with
+// another wire type and a well-formed value of that type.
+func reqFlipType(c *Ctx, md protoreflect.MessageDescriptor, b []byte) []byte {
+	chunks, ok := unkSplit(b)
+	if !ok || len(chunks) == 0 {
+		return nil
+	}
+	k := c.Intn(len(chunks))
+	var out []byte
+	for i, ch := range chunks {
+		if i != k {
+			out = append(out, ch.tag...)
+			out = append(out, ch.val...)
+			continue
+		}
+		fd := msgFindField(md, ch.num)
+		if fd != nil && fd.Message() != nil && !fd.IsMap() && ch.typ == protowire.BytesType && c.Bool() {
+			if p, n := protowire.ConsumeBytes(ch.val); n >= 0 {
+				if p2 := reqFlipType(c, fd.Message(), p); p2 != nil {
+					out = append(out, ch.tag...)
+					out = protowire.AppendBytes(out, p2)
+					continue
+				}
+			}
+		}
+		types := []protowire.Type{protowire.VarintType, protowire.Fixed32Type, protowire.Fixed64Type, protowire.BytesType}
+		t := types[c.Intn(len(types))]
+		if t == ch.typ {
+			t = types[(c.Intn(3)+1+int(indexOfType(types, ch.typ)))%len(types)]
+		}
+		out = protowire.AppendTag(out, ch.num, t)
+		switch t {
+		case protowire.VarintType:
+			out = protowire.AppendVarint(out, uint64(c.Intn(300)))
+		case protowire.Fixed32Type:
+			out = protowire.AppendFixed32(out, uint32(c.U64()))
+		case protowire.Fixed64Type:
+			out = protowire.AppendFixed64(out, c.U64())
+		default:
+			out = protowire.AppendBytes(out, c.Bytes(c.Intn(3)))
+		}
+	}
+	return out
+}
+
+func indexOfType(ts []protowire.Type, t protowire.Type) int {
+	for i, x := range ts {
+		if x == t {
+			return i
+		}
+	}
+	return 0
 }
 
 // reqMergeEntries concatenates the payloads of the entries that b1 and b2 hold for the same map
@@ -807,9 +870,6 @@ func reqWirePair(c *Ctx, t *reqTarget, s1, s2 reqSetter) {
 			case facts.missing && !fl.slow && before:
 				c.Known("FA3", "C10", "UnmarshalOptions{Merge:true}: the fast path's initialized flag only covers the input, not what the destination already held")
 				c.Stat("known_FA3")
-			case facts.missing && !fl.slow && facts.allUnderLateOO:
-				c.Known("FA2", "C10", "the table-driven decoder ignores the initialized result of a message in a non-first oneof member")
-				c.Stat("known_FA2")
 			case facts.missing && !fl.slow && facts.allUnderCycle:
 				reqKnownFA4(c)
 			default:
